@@ -56,8 +56,18 @@ func init() {
 	register(&Rule{
 		Name:    "COMMIT-POINT",
 		IR:      "ssa",
-		Props:   []string{"C13", "C12"}, // a rejected edit that has already changed the world also breaks the per-feature map semantics of C12
-		FloorBy: map[string]int{"C12": 6},
+		Props:   []string{"C13", "C12", "C15"}, // a rejected edit that has already changed the world also breaks the per-feature map semantics of C12
+		FloorBy: map[string]int{"C12": 6, "C15": 2},
+		// A rejected AddFeature that has already written (copies of referrers put into the overlay before the
+		// validation that rejects the edit) leaves features the reference index does not know: the
+		// AddFeature obligations also serve C15 (AddFeature is the ingest.MutableWorld interface method).
+		Narrow: func(o *Obligation) {
+			if strings.Contains(o.Key, ".AddFeature#") {
+				o.Props = []string{"C13", "C12", "C15"}
+			} else {
+				o.Props = []string{"C13", "C12"}
+			}
+		},
 		// AddFeature, AddTag, RemoveTag of ingest.BasicMutableWorld and ingest.MutableOverlayWorld
 		Floor: 6,
 		Doc: "in every AddFeature/AddTag/RemoveTag implementation of an ingest.MutableWorld, no statement with a write effect on the receiver's own state (store, map update/delete, or a call whose " +
